@@ -349,6 +349,43 @@ func c10MultiRun(c c10Multi) (sig, what string) {
 	return "", ""
 }
 
+// c10Alias: the slice handed to Write is a view of the image itself that overlaps the destination (moving
+// data inside the ROM): the writer must store the bytes the slice held when Write was called.
+type c10Alias struct {
+	AliasBanks int    `json:"alias_banks"`
+	Addr       uint32 `json:"addr"`
+	Len        int    `json:"len"`
+	Delta      int    `json:"delta"` // source file offset - destination file offset
+}
+
+func c10AliasRun(c c10Alias) (sig, what string) {
+	defer func() {
+		if x := recover(); x != nil {
+			sig, what = "unexplained:aliased-write", fmt.Sprintf("%+v: panic %v", c, x)
+		}
+	}()
+	img := c10Image(c.AliasBanks)
+	rom, err := snes.NewROM("t", img)
+	if err != nil {
+		return "bad-case", err.Error()
+	}
+	dst := int(c.Addr>>16<<15 | c.Addr&0x7FFF)
+	src := dst + c.Delta
+	if src < 0 || src+c.Len > len(img) || dst+c.Len > int(c.Addr>>16<<15)+0x8000 {
+		return "", ""
+	}
+	model := append([]byte(nil), img...)
+	copy(model[dst:], append([]byte(nil), img[src:src+c.Len]...))
+	n, werr := rom.BusWriter(c.Addr).Write(rom.Contents[src : src+c.Len])
+	if n != c.Len || werr != nil {
+		return "unexplained:aliased-write", fmt.Sprintf("%+v: Write of a %d-byte view of the image returned (%d,%v)", c, c.Len, n, werr)
+	}
+	if !bytes.Equal(img, model) {
+		return "unexplained:aliased-write", fmt.Sprintf("%+v: after writing the image's own bytes $%06x..$%06x to $%06x the image differs from a move of those bytes at file offset $%06x", c, src, src+c.Len-1, dst, firstDiff(img, model))
+	}
+	return "", ""
+}
+
 func c10MultiCases(depth int) []c10Multi {
 	pairs := [][]uint32{{0x00FFF0, 0x00FFF0}, {0x00FFF0, 0x00FFF8}, {0x00FFE0, 0x01FFE8}, {0x018000, 0x008000}}
 	lens := []int{1, 3, 8, 17}
@@ -374,6 +411,14 @@ func c10MultiCases(depth int) []c10Multi {
 }
 
 func replayC10(raw json.RawMessage) (string, error) {
+	var ac c10Alias
+	if json.Unmarshal(raw, &ac) == nil && ac.AliasBanks > 0 {
+		sig, what := c10AliasRun(ac)
+		if sig == "" {
+			return "the aliased write moves the bytes as a copy would", nil
+		}
+		return what, fmt.Errorf("%s", sig)
+	}
 	var mc c10Multi
 	if json.Unmarshal(raw, &mc) == nil && len(mc.Addrs) > 0 {
 		if mc.Readers {
@@ -523,6 +568,21 @@ func runC10(r *report.Run) {
 			r.ViolationSized(sig, what, multi[i], len(multi[i].Ops))
 		}
 	})
+	// writes whose source is an overlapping view of the image itself
+	var na int64
+	for _, addr := range []uint32{0x008010, 0x018013, 0x00FFE0, 0x018000} {
+		for _, l := range []int{1, 2, 8, 16, 33} {
+			for _, d := range []int{-40, -33, -16, -3, -1, 0, 1, 3, 16, 33, 40} {
+				ac := c10Alias{2, addr, l, d}
+				na++
+				if sig, what := c10AliasRun(ac); sig != "" {
+					r.ViolationSized(sig, what, ac, l)
+				}
+			}
+		}
+	}
+	transitions += na
+	r.Set("aliased_source_writes", na)
 	// the same op sequences with two READERS, interleaved vs alone
 	var nr int64
 	par.For(len(multi), func(_, i int) {
@@ -541,7 +601,7 @@ func runC10(r *report.Run) {
 	r.Set("traces_validated_against_impl", int64(len(cases)+len(multi)))
 	r.Set("evaluations", int64(len(cases)))
 	r.Set("distinct_nontrivial", nontrivial)
-	r.Set("rule", "every (image size, bank inside the image, boundary offset, length) single write/read, and every write history up to the stated depth over the length alphabet from the boundary start offsets, each followed by a reader at the same address; interleaved histories of two writers, and of two readers (each must return what it returns alone), on one ROM; every call is executed on a fresh real ROM object and compared with the window model (full image compare after each write); non-trivial = address in the ROM half of a bank")
+	r.Set("rule", "every (image size, bank inside the image, boundary offset, length) single write/read, and every write history up to the stated depth over the length alphabet from the boundary start offsets, each followed by a reader at the same address; writes whose source is an overlapping view of the image itself (must act like a move), interleaved histories of two writers, and of two readers (each must return what it returns alone), on one ROM; every call is executed on a fresh real ROM object and compared with the window model (full image compare after each write); non-trivial = address in the ROM half of a bank")
 	r.Set("bounds", map[string]interface{}{"image_banks": bankCounts, "lengths": lens, "history_depth": depth, "history_lengths": wl, "history_starts": starts, "offsets": len(offList)})
 	r.Set("exhaustive", true)
 	r.Sample(c10Case{Banks: 2, Addr: 0x00FFFE, Writes: []int{4}, Reads: []int{0x8000}})
